@@ -263,6 +263,48 @@ def gen_tree(rnd: random.Random, max_nodes: int = 25, names=NAMES, big: int = 40
     return normalise(ents)
 
 
+UP_NAMES = ["up", "parent", "top", "all", "fs", "..x", "b"]
+
+
+def ancestor_links(rnd: random.Random, ents, k: int = 2):
+    """-> (entries, [paths of the new links]): directory symlinks INSIDE the root that lead to an ANCESTOR of the root - the
+    directory above it (the model's "/": `..` from the root, `../..` one level down, an absolute target, a detour through a
+    sibling and back up, a second link through the first) - or, for comparison, exactly to the root.  The directory above the
+    root gets a marker entry of its own, so that a listing of it is recognised as one of a directory outside the root."""
+    ents = [list(e) for e in ents]
+    have = {e[1] for e in ents}
+    if MARK + "0" not in have:
+        ents.append(["f", MARK + "0", max([e[2] for e in ents if e[0] == "f"] + [7]) + 1, True, 0])
+    dirs = [e[1] for e in ents if e[0] == "d" and (e[1] == "root" or e[1].startswith("root/")) and e[1].count("/") < 3]
+    made = []
+    for _ in range(k):
+        d = rnd.choice(dirs if rnd.random() < 0.5 else ["root"])
+        n = rnd.choice(UP_NAMES)
+        p = d + "/" + n
+        if p in have:
+            continue
+        depth = d.count("/") + 1                       # `..` steps from the link's directory to the directory above the root
+        c = rnd.random()
+        if c < 0.40:
+            tgt = "/".join([".."] * depth)
+        elif c < 0.55:
+            tgt = "/"
+        elif c < 0.65:
+            tgt = "../" * depth + rnd.choice(["out/..", "root/..", "root-evil/../", "out/sub/../..", "."])
+        elif c < 0.75:
+            tgt = "/" + rnd.choice(["out/..", "root/..", "."])
+        elif c < 0.85 and made:
+            tgt = "../" * (depth - 1) + made[-1][len("root/"):]           # a link to the link made before
+        elif c < 0.93:
+            tgt = "../" * depth + "root"                                   # exactly the root: still inside
+        else:
+            tgt = "../" * (depth + rnd.randint(1, 2))                      # (leaves the model's "/": dropped when the tree is built)
+        ents.append(["l", p, tgt])
+        have.add(p)
+        made.append(p)
+    return ents, made
+
+
 def quote_all(s: str) -> str:
     return urllib.parse.quote(s, safe="")
 
@@ -446,6 +488,10 @@ def canon_response(status, meta, body, req_path, built: "Built"):
             # lexically - not always what the kernel's own walk does; the handler's notion is the one the property speaks of)
             real = os.path.realpath(os.path.join(built.base, "root", canon.strip("/")) if canon != "/" else os.path.join(built.base, "root"), strict=True)
             x["resolves"] = os.path.isdir(real) if canon.endswith("/") else True
+            # ... and is the place it resolves to the document root or something below it?
+            rr = os.path.realpath(os.path.join(built.base, "root"))
+            x["inside"] = real == rr or real.startswith(rr + os.sep)
+            x["dir"] = os.path.isdir(real)
         except (OSError, ValueError):
             x["resolves"] = False
     if status == 20:
